@@ -35,6 +35,8 @@ def stream_reads(ctx, built):
             df, pids, kinds = BS.gen_dataset(R, 1, ncols=ncols, with_pids=R.random() < 0.4, n=R.choice([150, 300]))
             if bi % 2 == 0:      # column names that share a long prefix or differ only in characters that file names sanitise
                 fam = ["temperature_sensor_inlet", "temperature_sensor_outlet", "temperature_sensor_in let", "x y", "x_y", "x:y"]
+                if R.random() < 0.5:      # the names that differ only in a sanitised character first, so that small tables have them too
+                    fam = fam[3:] + fam[:3]
                 df.columns = fam[:ncols]
             d = tempfile.mkdtemp(prefix="sdxblob")
             try:
